@@ -90,6 +90,7 @@ class Path:
         p.end = self.end
         p.env = dict(self.env)
         p.heap = dict(self.heap)
+        p.unbound = getattr(self, 'unbound', None)
         return p
 
     # ---- queries used by the rules
@@ -213,6 +214,27 @@ class Walker:
         st = Path()
         if bind:
             st.env.update(bind)
+        if depth == 0 and isinstance(func, ast.FunctionDef):
+            a = func.args
+            params = {x.arg for x in a.posonlyargs + a.args + a.kwonlyargs} | ({a.vararg.arg} if a.vararg else set()) | ({a.kwarg.arg} if a.kwarg else set())
+            stores, skip = set(), set()
+            for n in ast.walk(func):
+                if isinstance(n, (ast.FunctionDef, ast.Lambda, ast.ListComp, ast.SetComp, ast.DictComp, ast.GeneratorExp)) and n is not func:
+                    skip |= {id(x) for x in ast.walk(n)}
+                if isinstance(n, (ast.Global, ast.Nonlocal)):
+                    params |= set(n.names)
+            for n in ast.walk(func):
+                if isinstance(n, ast.Name) and isinstance(n.ctx, ast.Store) and id(n) not in skip:
+                    stores.add(n.id)
+            # names the walker itself does not bind by plain assignment are left alone
+            for n in ast.walk(func):
+                if isinstance(n, (ast.For, ast.With, ast.ExceptHandler, ast.While, ast.Try, ast.AugAssign, ast.Delete, ast.NamedExpr, ast.Import, ast.ImportFrom)):
+                    for x in ast.walk(n):
+                        if isinstance(x, ast.Name) and isinstance(x.ctx, (ast.Store, ast.Del)):
+                            stores.discard(x.id)
+                    if isinstance(n, ast.ExceptHandler) and n.name:
+                        stores.discard(n.name)
+            self.fn_locals = stores - params
         if isinstance(func, ast.Lambda):
             v = self.ev(func.body, st, depth)
             st.end = ('return', v)
@@ -258,7 +280,18 @@ class Walker:
         m = getattr(self, 's_' + type(s).__name__, None)
         if m is None:
             raise Undecided('statement kind %s not supported (line %d)' % (type(s).__name__, s.lineno))
-        return m(s, st, depth)
+        outs = m(s, st, depth)
+        if getattr(self, 'unbound_raises', False) and depth == 0:
+            # a local read before any assignment on this path: UnboundLocalError
+            fixed = []
+            for p, status in outs:
+                ub = getattr(p, 'unbound', None)
+                if ub is not None and (status is None or status[0] in ('return',)):
+                    p.unbound = None
+                    status = ('raise', ast.Call(func=ast.Name(id='UnboundLocalError', ctx=ast.Load()), args=[ast.Constant(value=ub)], keywords=[]))
+                fixed.append((p, status))
+            outs = fixed
+        return outs
 
     def _split_on_ifexp(self, s, st, depth):
         """``x = f(a if c else b)`` is walked as ``if c: x = f(a) else: x = f(b)`` when c is a pure
@@ -1032,6 +1065,9 @@ class _Ev:
             return e
         if isinstance(e.ctx, ast.Load) and e.id in self.st.env:
             return copy.deepcopy(self.st.env[e.id])
+        if isinstance(e.ctx, ast.Load) and self.d == 0 and getattr(self.w, 'unbound_raises', False) and e.id in getattr(self.w, 'fn_locals', ()) \
+                and getattr(self.st, 'unbound', None) is None and not cond:
+            self.st.unbound = e.id
         return ast.Name(id=e.id, ctx=ast.Load())
 
     def _record_member(self, recv, attr, args=None):
